@@ -1,4 +1,5 @@
 import Pose.Model.Basic
+import Pose.Model.Batch
 /-!
 # Model of `pypose/module/dynamics.py` (`System`, `LTI`, `LTV`, `NLS`) and of the batched
 mat-vec helpers `bmv`, `bvv`, `bvmv` of `pypose/function/linalg.py`
@@ -51,6 +52,32 @@ def bvmv (l : DVec α) (M : DMat α) (r : DVec α) : α := DVec.dot (DMat.vecMul
 
 /-- the shape assertion of `bmv`: every row of `mat` has as many entries as `vec` -/
 def bmvOK (M : DMat α) (v : DVec α) : Bool := M.all (fun r => r.length == v.length)
+
+/-! ### the helpers on batches: `torch.matmul` broadcasting
+
+`bmv(mat, vec) = matmul(mat, vec.unsqueeze(-1)).squeeze(-1)`: the batch shapes `mat.shape[:-2]`, `vec.shape[:-1]` are
+broadcast by `torch.matmul` (its documented contract, an external kernel: `Batch.broadcastShapes` / `Batch.proj` of C06's
+model) and the item kernel runs on every pair. `bvv` is the same with the outer product; `bvmv` is two matmuls
+`(lvec.mT @ mat) @ rvec`, i.e. two broadcasts in a row. A batch is `Batch.T item` (row-major items). -/
+
+/-- a broadcasting binary op: `none` when the batch shapes do not broadcast (torch raises) -/
+def bcast2 {β γ δ : Type} (f : β → γ → δ) (x : Batch.T β) (y : Batch.T γ) : Option (Batch.T δ) :=
+  match Batch.broadcastShapes x.shape y.shape with
+  | none => none
+  | some out =>
+    some ⟨out, fun k => f (x.get (Batch.proj x.shape (Batch.unravel out k))) (y.get (Batch.proj y.shape (Batch.unravel out k)))⟩
+
+def bmvB (M : Batch.T (DMat α)) (v : Batch.T (DVec α)) : Option (Batch.T (DVec α)) := bcast2 bmv M v
+def bvvB (l r : Batch.T (DVec α)) : Option (Batch.T (DMat α)) := bcast2 bvv l r
+def bvmvB (l : Batch.T (DVec α)) (M : Batch.T (DMat α)) (r : Batch.T (DVec α)) : Option (Batch.T α) :=
+  (bcast2 DMat.vecMul l M).bind fun lm => bcast2 DVec.dot lm r
+
+/-- one batched LTI forward: `bmv(A, x) + bmv(B, u) (+ c)`, every `+` broadcasting as well -/
+def affineB (A B : Batch.T (DMat α)) (c : Option (Batch.T (DVec α))) (x u : Batch.T (DVec α)) : Option (Batch.T (DVec α)) :=
+  (bmvB A x).bind fun ax => (bmvB B u).bind fun bu => (bcast2 DVec.add ax bu).bind fun z =>
+    match c with
+    | none => some z
+    | some c => bcast2 DVec.add z c
 
 /-! ## 1. The clock -/
 
@@ -292,6 +319,40 @@ def size : Fn → Nat
   | .pow a _ => size a + 1
 
 end Fn
+
+/-! ### explicit bounds: value, first-order part, second-order remainder
+
+For a box `|q i| ≤ ea i` containing the point `p` and the perturbed point `p + d`, and `|d i| ≤ da i`, `Fn.bnd ea da e`
+is a computable triple `(m0, l, r)` with `|e(p)|, |e(p+d)| ≤ m0`, `|Σ_v ∂_v e(p)·d_v| ≤ l` and
+`|e(p+d) − e(p) − Σ_v ∂_v e(p)·d_v| ≤ r` (proved in `Props/C15`: `second_order_explicit`). `r` is built like half a bound
+of the second directional derivative: `r(ab) = r_a·|b| + |a|·r_b + l_a·l_b (+ l_a·r_b)`, `r(sin a) = r_a + (l_a + r_a)²/2`.
+It scales like `h²` when the perturbation is scaled by `h ≤ 1` (`bnd_scale`). -/
+
+structure Bnd (α : Type) where
+  m0 : α
+  l : α
+  r : α
+deriving Repr, Inhabited
+
+def Bnd.add (a b : Bnd α) : Bnd α := ⟨a.m0 + b.m0, a.l + b.l, a.r + b.r⟩
+def Bnd.mul (a b : Bnd α) : Bnd α :=
+  ⟨a.m0 * b.m0, a.l * b.m0 + a.m0 * b.l, a.r * b.m0 + a.m0 * b.r + a.l * b.l + a.l * b.r⟩
+/-- composition with `sin` / `cos` -/
+def Bnd.trig (a : Bnd α) : Bnd α := ⟨k 1, a.l, a.r + (a.l + a.r) * (a.l + a.r) / k 2⟩
+def Bnd.pow (a : Bnd α) : Nat → Bnd α
+  | 0 => ⟨k 1, k 0, k 0⟩
+  | n + 1 => (Bnd.pow a n).mul a
+
+def Fn.bnd (ea da : Nat → α) : Fn → Bnd α
+  | .const _ a b => ⟨q a b, k 0, k 0⟩
+  | .var i => ⟨ea i, da i, k 0⟩
+  | .add a b => (Fn.bnd ea da a).add (Fn.bnd ea da b)
+  | .sub a b => (Fn.bnd ea da a).add (Fn.bnd ea da b)
+  | .mul a b => (Fn.bnd ea da a).mul (Fn.bnd ea da b)
+  | .neg a => Fn.bnd ea da a
+  | .sin a => (Fn.bnd ea da a).trig
+  | .cos a => (Fn.bnd ea da a).trig
+  | .pow a n => (Fn.bnd ea da a).pow n
 
 /-- variable numbering: `0 … nx-1` state, `nx … nx+nu-1` input, `nx+nu` time -/
 def mkEnv (x u : DVec α) (t : α) : Nat → α := fun i =>
